@@ -5,8 +5,8 @@ open ZCV
 
 /-- the documented level names (README / handlers.xml): case-insensitive -/
 def levelNames : List (String × Int) :=
-  [("critical", 50), ("fatal", 50), ("error", 40), ("warn", 30), ("warning", 30), ("info", 20), ("blather", 15),
-   ("debug", 10), ("trace", 5), ("all", 1), ("notset", 0)]
+  [("all", 1), ("blather", 15), ("critical", 50), ("debug", 10), ("error", 40), ("fatal", 50), ("info", 20), ("notset", 0),
+   ("trace", 5), ("warn", 30), ("warning", 30)]      -- in alphabetical order (as the translator emits the live table)
 
 /-- a documented name, or an integer 0..50; everything else is rejected -/
 def loggingLevel (value : Str) : Except ConvErr Int :=
